@@ -31,7 +31,8 @@ Results other than `ok`:
                   5 = the state of an `except` / `finally` clause (built from the states after assignments) does
                   not cover a state an exception / return / jump really occurs in (not observed on the unchanged
                   rules); 6 = a `break` / `continue` passes through a `finally` clause that changes a local: the
-                  loop exit keeps the state recorded at the jump
+                  loop exit keeps the state recorded at the jump; 7 = the signature of `__bool__` is not checked
+                  (a truth test of an instance whose `__bool__` takes an argument or returns a non-bool raises TypeError)
   `stuck k`       a defensive check failed (a merged type is not above a branch type, a declaration meets an
                   already narrowed local); never observed — it keeps the proof independent of binder invariants
   `fuel`          recursion budget exhausted
@@ -727,7 +728,14 @@ def attrNames (P : Prog) (ks : List Nat) : List Nat :=
     | some kd => kd.attrs.map (·.1)
     | none => []).flatten
 
+/-- a `__bool__` method takes no argument and returns bool.  mypy does not check this (F-C01-8): it accepts
+    `def __bool__(self) -> int` and `def __bool__(self, x: int) -> bool`, and a truth test of such an instance
+    raises TypeError — `hole 7` -/
+def boolSigOk (ms : List (Nat × FuncDef)) : Bool :=
+  ms.all fun p => p.1 != boolMeth || (p.2.params.isEmpty && p.2.ret == [.bool])
+
 def tcClass (P : Prog) (c : Nat) (cd : ClassDef) : TC Recs := do
+  req (boolSigOk cd.methods) (.hole 7)
   let tail := cd.mro.drop 1
   tcAttrs P tail cd.attrs
   req ((methNames P tail).all (miMethOk P cd.methods tail)) (.type 14)
